@@ -54,6 +54,13 @@ METHODS = ["derives", "from", "from_ascii", "from_utf8", "from_code_points", "it
 BINOPS = ["+", "-", "*", "/", "%", "&", "|", "^", "<<", ">>", "<", "<=", ">", ">=", "==", "!=", "&&", "||", ".."]
 
 
+# call_closure / return_impl translated from vm.rs on every run (Props/FnsTie/CallReturn): wrong arity and exhausted call depth are handed to the
+# exception machinery and push no frame; a call saves the resume point and pushes a frame at the callee; Return cuts the stack to the frame's base,
+# puts the result there and resumes the caller ("calls are atomic"); the last Return of a called fiber hands the result to the caller
+THEOREM_MODULES.append("Yarel.Props.FnsTie.CallReturn")
+REQUIRED_THEOREMS += ['call_wrong_arity', 'call_depth_limit']
+
+
 def sweep_programs():
     progs_ = []
     n_pool = 57
